@@ -69,6 +69,19 @@ STRENGTHENED = {
     "C16-7": "missed; the `modules` oracle now enumerates every documented form of `norm` (None / True / False / number) x (both / "
              "one / no reference image)",
     "C17-7": "missed; new oracle `ic_default_grid` (grid=None equals the explicit default grid on non-cubic shapes)",
+    # round 5 (one seed per property: a defect in exactly one shape-dependent branch — D, N, C, parity / boundary sizes, rank
+    # or type of an optional argument)
+    "C05-8": "missed; new batch form `batchN_target_is_grid0` (per-image source grids, ONE target Grid that is the grid of image 0) "
+             "in the `sample.on_grid` stream and the ITK oracle",
+    "C08-8": "first only `no-failing-input-found` (stream `quat`); the `conversions` oracle now converts batches of three distinct "
+             "items and compares item by item",
+    "C09-8": "reported by C06 (`disp` on the own grid raises / is axis-reversed for stride > 1, resize=False on non-square grids), "
+             "not by C09",
+    "C10-8": "first reported only by C01 (`vectors:grid->cube` on a grid with fractional stored size); the C10 `repr` and "
+             "`world_affine` oracles now also draw pyramid levels of odd-sized grids",
+    "C18-8": "same change as C02-8 (origin setter on one-sample axes); reported by C18 (`convert_back:memory:origin`) and C02",
+    "C20-8": "missed; new oracle operations `losses.<fn>[norm=scalar0d | scalar1 | recipe]` (the normalisation factor as a learnable "
+             "tensor, and as the documented max_difference(source, target)^2 of the optimised images)",
 }
 
 
@@ -100,7 +113,9 @@ def main():
            "normalisation, dtype / device / memory layout), -7 round 4 (one per property: object-oriented layers on top of the core "
            "functions, rarely used options, defaults derived from other objects, in-place twins; the agents of rounds 3 and 4 "
            "independently arrived at the same change three times — `ExpFlow.inverse()` rebuilt without align_corners — and at the "
-           "SVF `grid_()` change twice). The first round-3 change for C12 (dropping the up-front float cast of "
+           "SVF `grid_()` change twice), -8 round 5 (one per property: the defect lives in exactly one branch that depends on the SHAPE "
+           "of the problem — number of dimensions, batch size / broadcasting, channels, size parity or boundary sizes, rank or type "
+           "of an optional argument). The first round-3 change for C12 (dropping the up-front float cast of "
            "integer flows in spatial_derivatives) was only a defect because finite_differences truncated fractional spacings for "
            "integer data on the unchanged tree; that is a genuine defect (repaired, 57bfa1a), after which the change is "
            "behaviour-preserving, so it was replaced by a new one. "
